@@ -143,7 +143,9 @@ fn worker(c: &Value) -> Value {
         }
     };
     let reference = run_chain(&mut b, n, d);
-    json!({"same_draws": out == reference, "same_final": a.state == b.state, "msgs": msgs, "rows": out.nrows()})
+    json!({"same_draws": out == reference, "same_final": a.state == b.state, "msgs": msgs, "rows": out.nrows(),
+           "final": a.state.iter().map(|x| *x as i64).collect::<Vec<i64>>(),
+           "rows_flat": out.iter().map(|x| *x as i64).collect::<Vec<i64>>()})
 }
 
 pub fn run(c: &Value) -> Value {
